@@ -3,11 +3,13 @@ package sim
 import (
 	"fmt"
 	"sort"
+	"strings"
 	"testing"
 	"time"
 
 	"github.com/resonatehq/resonate/internal/kernel/t_api"
 	"github.com/resonatehq/resonate/internal/verif/core"
+	"github.com/resonatehq/resonate/pkg/promise"
 )
 
 // backlog counts what the background coroutines have to work off at clock value now.
@@ -151,6 +153,30 @@ func TestC11(t *testing.T) {
 			s.Tick()
 			s.Tick()
 		}
+		// the ordinary life of a worker: it claims the invocation of a root with a long lease, awaits another promise
+		// (registration with that root), the awaited promise completes => a resume task of a root that is busy (its
+		// invocation is still claimed) waits in init next to the dispatchable tasks of other roots
+		for f, flows := 0, d.Int(0, 2, "awaitflows"); f < flows; f++ {
+			root, leaf := g.pick(g.Pids, "awaitroot"), g.pick(g.Pids, "awaitleaf")
+			if root == leaf {
+				continue
+			}
+			step := func(rq *t_api.Request) { s.Submit(rq); s.Tick(); s.Tick(); s.Tick() }
+			cr := g.CreateReq(s.Now, root)
+			cr.Timeout = s.Now + 3600_000
+			cr.Tags = map[string]string{"resonate:invoke": "poll://g/w"}
+			step(&t_api.Request{Kind: t_api.CreatePromise, CreatePromise: cr})
+			lf := g.CreateReq(s.Now, leaf)
+			lf.Timeout = s.Now + 3600_000
+			step(&t_api.Request{Kind: t_api.CreatePromise, CreatePromise: lf})
+			ctr := 1
+			if tk, ok := s.Snaps[s.CurSnap()]["tasks"]["__invoke:"+root]; ok {
+				ctr = int(tk.I("counter"))
+			}
+			step(&t_api.Request{Kind: t_api.ClaimTask, ClaimTask: &t_api.ClaimTaskRequest{Id: "__invoke:" + root, Counter: ctr, ProcessId: "w1", Ttl: 3600_000}})
+			step(&t_api.Request{Kind: t_api.CreateCallback, CreateCallback: &t_api.CreateCallbackRequest{Id: fmt.Sprintf("cb.%s.%s", root, leaf), PromiseId: leaf, RootPromiseId: root, Timeout: s.Now + 3600_000, Recv: []byte(`"poll://g/w"`)}})
+			step(&t_api.Request{Kind: t_api.CompletePromise, CompletePromise: &t_api.CompletePromiseRequest{Id: leaf, State: promise.Resolved}})
+		}
 		s.Drain(40)
 		// ---- downtime ----
 		s.Advance([]int64{0, 2000, 10000, 30000, 61000, 120000}[d.Uni(6, "downtime")])
@@ -228,7 +254,8 @@ func TestC11(t *testing.T) {
 		}
 		schedLag := ceil(max(1, nSched), cfg.ScheduleBatchSize) + 1
 		dispatchRun := map[string]int{}
-		idle := map[string]int{} // background coroutine -> consecutive cycles without a new instance
+		slack := map[string]int{} // task -> consecutive cycles it stayed dispatchable although the cycle had room left
+		idle := map[string]int{}  // background coroutine -> consecutive cycles without a new instance
 		converged := -1
 		times := []int64{s.Now}
 		at := func(lag int) int64 { return times[max(0, len(times)-1-lag)] }
@@ -267,9 +294,33 @@ func TestC11(t *testing.T) {
 			taskLag = max(taskLag, ceil(max(1, len(roots)), cfg.TaskBatchSize)+2)
 			bad := quiescent(sn, refTimes{promises: at(promiseLag), locks: at(1), schedules: at(schedLag), tasks: at(taskLag)}, tasksFit)
 			times = append(times, s.Now)
+			// tasks the dispatch cycle took out of init in this cycle: a cycle that takes fewer than its batch size had room left
+			handoffs := 0
+			for i := len(s.Txs) - 1; i >= 0 && s.Txs[i].Tick > cycleStart; i-- {
+				if !strings.HasPrefix(s.Txs[i].Name, "EnqueueTasks") {
+					continue
+				}
+				for _, c := range s.Txs[i].Diff {
+					// a slot of the batch is used by a hand-off, or by retiring a task whose own time-out has passed
+					if c.Table == "tasks" && c.After != nil && c.Before != nil && c.Before.I("state") == tInit && c.After.I("state") != tInit {
+						handoffs++
+					}
+				}
+			}
 			cur := map[string]bool{}
 			for _, id := range dispatchableTasks(sn, s.Now) {
 				cur[id] = true
+				// starvation that the known finding F22 does not explain: F22 needs the batch to be filled, cycle after
+				// cycle, by other tasks that are handed off again; a dispatchable task that waits while the cycle had room
+				// left is passed over for another reason
+				if handoffs < cfg.TaskBatchSize {
+					if slack[id]++; slack[id] >= 4 {
+						add("dispatch", "", "task %s has been dispatchable (init, no enqueued/claimed sibling) for %d consecutive cycles in each of which the dispatch cycle took fewer tasks out of init (%d in the last) than its batch size %d while hand-offs succeed (%d roots, config %s)", id, slack[id], handoffs, cfg.TaskBatchSize, len(roots), cfg)
+						delete(slack, id)
+					}
+				} else {
+					delete(slack, id)
+				}
 				dispatchRun[id]++
 				if dispatchRun[id] > taskBound {
 					key := ""
@@ -283,6 +334,11 @@ func TestC11(t *testing.T) {
 			for id := range dispatchRun {
 				if !cur[id] {
 					delete(dispatchRun, id)
+				}
+			}
+			for id := range slack {
+				if !cur[id] {
+					delete(slack, id)
 				}
 			}
 			if len(vs) > 0 {
